@@ -32,6 +32,7 @@ type EditPair struct {
 	New      J        `json:"new"`
 	Witness  *Witness `json:"witness,omitempty"`
 	Response bool     `json:"response_side,omitempty"` // documented client-breaking response edits (no request witness)
+	Neutral  bool     `json:"neutral,omitempty"`       // not a narrowing: used by C14/C15 only
 }
 
 // leafEdit narrows a leaf schema. W is a JSON value valid for Old and invalid for New.
@@ -477,6 +478,100 @@ func EditPairs(tier string) []EditPair {
 	}
 	out = append(out, structuralEdits()...)
 	out = append(out, responseEdits()...)
+	return out
+}
+
+// NeutralEdits are non-narrowing changes (descriptions, defaults, tags, extensions, media types) used
+// as extra pairs by C14 and C15.
+func NeutralEdits() []EditPair {
+	var out []EditPair
+	add := func(kind string, old, nw J) {
+		out = append(out, EditPair{Name: "neutral " + kind, Kind: kind, Site: "-", Old: old, New: nw, Neutral: true})
+	}
+	mk := func(f func(d J, v int)) (J, J) {
+		a, b := baseDoc(), baseDoc()
+		f(a, 0)
+		f(b, 1)
+		return a, b
+	}
+	txt := []string{"first text", "second text"}
+	{
+		a, b := mk(func(d J, v int) { at(d, "paths", "/a", "get")["description"] = txt[v] })
+		add("operation description changed", a, b)
+	}
+	{
+		a, b := mk(func(d J, v int) { at(d, "info")["description"] = txt[v] })
+		add("info description changed", a, b)
+	}
+	{
+		a, b := mk(func(d J, v int) {
+			addParam(d, "/a", "get", J{"in": "query", "name": "q", "type": "string", "description": txt[v]})
+		})
+		add("parameter description changed", a, b)
+	}
+	{
+		a, b := mk(func(d J, v int) { at(d, "paths", "/a", "get", "responses", "200")["description"] = txt[v] })
+		add("response description changed", a, b)
+	}
+	{
+		a, b := mk(func(d J, v int) {
+			at(d, "paths", "/a", "get", "responses")["200"] = J{"description": "ok", "schema": J{"$ref": "#/definitions/Pet"}}
+			at(d, "definitions", "Pet", "properties", "name")["description"] = txt[v]
+		})
+		add("property description changed", a, b)
+	}
+	{
+		a, b := mk(func(d J, v int) {
+			at(d, "paths", "/a", "get", "responses")["200"] = J{"description": "ok", "schema": J{"$ref": "#/definitions/Pet"}}
+			at(d, "definitions", "Pet")["description"] = txt[v]
+		})
+		add("definition description changed", a, b)
+	}
+	{
+		a, b := mk(func(d J, v int) {
+			addParam(d, "/a", "get", J{"in": "query", "name": "q", "type": "string", "default": txt[v]})
+		})
+		add("parameter default changed", a, b)
+	}
+	{
+		a, b := mk(func(d J, v int) {
+			addParam(d, "/a", "get", J{"in": "query", "name": "q", "type": "array", "items": J{"type": "integer"}, "default": A{1, v}})
+		})
+		add("array parameter default changed", a, b)
+	}
+	{
+		a, b := mk(func(d J, v int) { at(d, "paths", "/a", "get")["tags"] = A{"keep", []string{"t0", "t1"}[v]} })
+		add("tag replaced", a, b)
+	}
+	{
+		a, b := mk(func(d J, v int) { at(d, "paths", "/a", "get")["x-op"] = v })
+		add("operation extension changed", a, b)
+	}
+	{
+		a, b := mk(func(d J, v int) { d["produces"] = A{"application/json", []string{"text/plain", "text/csv"}[v]} })
+		add("produces replaced", a, b)
+	}
+	{
+		a, b := mk(func(d J, v int) { d["host"] = []string{"a.example.com", "b.example.com"}[v] })
+		add("host changed", a, b)
+	}
+	{
+		a, b := mk(func(d J, v int) {
+			at(d, "paths", "/a", "get", "responses")["200"] = J{"description": "ok", "headers": J{"X-A": J{"type": []string{"string", "integer"}[v]}}}
+		})
+		add("response header type changed", a, b)
+	}
+	{
+		a, b := mk(func(d J, v int) {
+			at(d, "paths", "/a", "get", "responses")["200"] = J{"description": "ok", "schema": J{"$ref": "#/definitions/" + []string{"Pet", "Pet2"}[v]}}
+			at(d, "definitions")["Pet2"] = clone(at(d, "definitions")["Pet"])
+		})
+		add("response ref target changed", a, b)
+	}
+	{
+		a, b := mk(func(d J, v int) { at(d, "paths", "/a", "get")["deprecated"] = v == 1 })
+		add("deprecated flag set", a, b)
+	}
 	return out
 }
 
